@@ -2,6 +2,7 @@ package oracle
 
 import (
 	"fmt"
+	"regexp"
 	"strings"
 
 	"github.com/hashicorp/hcl-lang/lang"
@@ -113,4 +114,94 @@ func (o *C12) objectItems(x *h.Exec, pi int, f *h.FileState, c *h.Check) bool {
 		}
 	})
 	return bad
+}
+
+// ---------------------------------------------------------------------------
+// descriptions: "carries the description the effective schema gives it"
+
+var docRe = regexp.MustCompile(`Doc \d+ \*\*md\*\*`)
+
+type hoverExp struct {
+	allowed map[string]bool   // descriptions the element may carry
+	want    string            // the one it must carry ("" = none required)
+	labels  []map[string]bool // per label: descriptions it may carry
+}
+
+// hoverDescriptions maps node ids (attributes, blocks) to the generated
+// descriptions ("Doc N **md**", every N unique) their hover may show: the
+// attribute's own, the block type's own; a label shows its own or - when it is
+// a dependency key - that of a dependent body of its block.
+func hoverDescriptions(p *h.PathState, f *h.FileState) map[int]*hoverExp {
+	out := map[int]*hoverExp{}
+	if p.Spec.Schema == nil || f.Rendered == nil || !f.ParseOK || f.Spec == nil || f.Spec.JSON || f.Spec.Raw != nil {
+		return out
+	}
+	model.Walk(p.Spec.Schema, f.Spec.Items, func(mc *model.Ctx) {
+		if mc.Body == nil || uncertain(mc) || mc.Unknown {
+			return
+		}
+		cnt, fe, _, _ := model.HasExt(mc.Body)
+		for _, it := range mc.Items {
+			switch {
+			case it.Attr != nil:
+				name := it.Attr.Name
+				if (cnt && name == "count") || (fe && name == "for_each") {
+					continue
+				}
+				as := mc.Body.Attr(name)
+				if as == nil {
+					as = mc.Body.Any
+				}
+				if as == nil || mc.Body.Block(name) != nil {
+					continue
+				}
+				e := &hoverExp{allowed: map[string]bool{}}
+				if docRe.MatchString(as.Desc) {
+					e.allowed[as.Desc] = true
+					e.want = as.Desc
+				}
+				out[it.ID] = e
+			case it.Block != nil:
+				bs := mc.Body.Block(it.Block.Type)
+				if bs == nil || it.Block.Type == "dynamic" || mc.Body.Attr(it.Block.Type) != nil {
+					continue
+				}
+				e := &hoverExp{allowed: map[string]bool{}}
+				if docRe.MatchString(bs.Desc) {
+					e.allowed[bs.Desc] = true
+					e.want = bs.Desc
+				}
+				for _, ls := range bs.Labels {
+					m := map[string]bool{}
+					if ls.Desc != "" {
+						m[ls.Desc] = true
+					}
+					if ls.DepKey {
+						for _, d := range bs.Dep {
+							if d.Body != nil && d.Body.Desc != "" {
+								m[d.Body.Desc] = true
+							}
+						}
+					}
+					e.labels = append(e.labels, m)
+				}
+				out[it.ID] = e
+			}
+		}
+	})
+	return out
+}
+
+// wrongDocs: every generated description in the content must be an allowed
+// one, and the wanted one must be there.
+func wrongDocs(content string, allowed map[string]bool, want string) string {
+	for _, d := range docRe.FindAllString(content, -1) {
+		if !allowed[d] {
+			return fmt.Sprintf("shows the description %q, which the effective schema gives to another element", d)
+		}
+	}
+	if want != "" && !strings.Contains(content, want) {
+		return fmt.Sprintf("lacks the description %q the effective schema gives it", want)
+	}
+	return ""
 }
